@@ -180,6 +180,36 @@ func runC19(r *Report) {
 		r.Fail("R-C19-2", 0, fmt.Sprintf("only %d uses of the domain index key found (5 confirmed by hand)", nIdx), reposPkg, "floor")
 	}
 
+	// ---- R-C19-3 an update cannot move a mapping to another name or owner -------------------
+	// the stored record's FullDomain is what DeleteMapping unclaims and ClientID is what it checks;
+	// UpdateMapping writes the caller's record, so both must be compared with the stored record first
+	if um := r.need("R-C19-3", reposPkg, "HTTPDomainMappingRepository.UpdateMapping"); um != nil {
+		sets := Calls(um, false, "Set")
+		if len(sets) == 0 {
+			r.Fail("R-C19-3", um.Pos(), "the data write of UpdateMapping was not found", "UpdateMapping", "immutable:anchor")
+		}
+		for _, st := range sets {
+			for _, fld := range []string{"FullDomain", "ClientID"} {
+				same := false
+				for _, ft := range Facts(st.Block()) {
+					bo, ok := ft.Cond.(*ssa.BinOp)
+					if !ok || !((bo.Op == token.NEQ && !ft.Pol) || (bo.Op == token.EQL && ft.Pol)) {
+						continue
+					}
+					tx, fx, bx, okx := FieldOf(bo.X)
+					ty, fy, by, oky := FieldOf(bo.Y)
+					if okx && oky && tx == "HTTPDomainMapping" && ty == tx && fx == fld && fy == fld && bx != by {
+						ox, oy := originSummary(bx), originSummary(by)
+						if (strings.HasPrefix(ox, "param:") && strings.Contains(oy, "GetMapping")) || (strings.HasPrefix(oy, "param:") && strings.Contains(ox, "GetMapping")) {
+							same = true
+						}
+					}
+				}
+				r.Ob("R-C19-3", CallPos(st), same, "UpdateMapping stores the caller's record only after "+fld+" was compared equal with the stored record's (the name a record claims and its owner cannot be changed by an update)", "UpdateMapping", "immutable:"+fld)
+			}
+		}
+	}
+
 	// ---- R-C19-3 owner check, order and guard in DeleteMapping ------------------------------
 	if dm := r.need("R-C19-3", reposPkg, "HTTPDomainMappingRepository.DeleteMapping"); dm != nil {
 		var idxDel, dataDel ssa.CallInstruction
